@@ -1,6 +1,7 @@
 import OptiModel.Model.Real
 import OptiModel.Model.Parax
 import OptiModel.Proofs.NumReal
+import OptiModel.Proofs.Covariance
 import Mathlib.Tactic.FieldSimp
 import Mathlib.Tactic.Ring
 import Mathlib.Tactic.LinearCombination
@@ -235,3 +236,1171 @@ theorem pstepStd_scale (s : ℝ) (ray : PRay ℝ) (sf : PSurf ℝ) (hs : s ≠ 0
 example : (0:ℝ) < 2.5 ∧ ((0:ℝ)^2 + 0^2 + (-1)^2 = 1) := by norm_num
 
 end C07
+
+/-! ## Lifts: a whole surface (`traceSurf`) and a whole lens (`traceLens`)
+
+The step-level lemmas above are composed along the body of `traceSurf` and then lifted to the
+record list of `traceLens` by induction over the surface list (`Cov.traceLens_equivariant`).
+All statements are equalities of whole `Ray` records, i.e. of position, direction, intensity
+and accumulated optical path at once. -/
+namespace C07
+open Model Cov
+
+/-! ### mirror in x: one surface -/
+
+theorem truthy_zero : truthy (0:ℝ) = false := by
+  have h : Num.isZero (0:ℝ) = true := by rw [NumReal.isZero_eq]
+  simp only [truthy, h, Bool.not_true]
+
+/-- `localize` commutes with the x-mirror when the frame has no x-decentre and no tilt about y, z
+(any tilt `rx` about the x-axis is allowed: it acts in the y–z plane only) -/
+theorem localize_mirX (c : Cs ℝ) (hx : c.x = 0) (hry : c.ry = 0) (hrz : c.rz = 0) (r : Ray ℝ) :
+    c.localize (mirX r) = mirX (c.localize r) := by
+  unfold Cs.localize
+  rw [hx, hry, hrz]
+  simp only [truthy_zero, Bool.false_eq_true, if_false]
+  cases truthy c.rx
+  · simp only [Bool.false_eq_true, if_false]
+    unfold Ray.translate mirX
+    num_real
+    simp only [Ray.mk.injEq, true_and, and_true]
+    ring
+  · simp only [if_true]
+    unfold Ray.translate Ray.rotateX mirX
+    num_real
+    simp only [Ray.mk.injEq, true_and, and_true]
+    ring
+
+theorem globalize_mirX (c : Cs ℝ) (hx : c.x = 0) (hry : c.ry = 0) (hrz : c.rz = 0) (r : Ray ℝ) :
+    c.globalize (mirX r) = mirX (c.globalize r) := by
+  unfold Cs.globalize
+  rw [hx, hry, hrz]
+  simp only [truthy_zero, Bool.false_eq_true, if_false]
+  cases truthy c.rx
+  · simp only [Bool.false_eq_true, if_false]
+    unfold Ray.translate mirX
+    num_real
+    simp only [Ray.mk.injEq, true_and, and_true]
+    ring
+  · simp only [if_true]
+    unfold Ray.translate Ray.rotateX mirX
+    num_real
+    simp only [Ray.mk.injEq, true_and, and_true]
+    ring
+
+/-- a radial aperture does not see the sign of x -/
+theorem clip_mirX (ap : Option (ℝ × ℝ)) (r : Ray ℝ) : clip ap (mirX r) = mirX (clip ap r) := by
+  rcases ap with _ | ⟨rmax, rmin⟩
+  · rfl
+  · unfold clip
+    have e : (mirX r).x * (mirX r).x + (mirX r).y * (mirX r).y = r.x * r.x + r.y * r.y := by
+      unfold mirX; num_real; ring
+    simp only [e]
+    split_ifs <;> rfl
+
+theorem dist1_mirX (g : Geom ℝ) (r : Ray ℝ) : dist1 g (mirX r) = dist1 g r := by
+  cases g <;> simp only [dist1, planeDistance_mirX, stdDistance_mirX]
+
+/-- `Surface._interact` commutes with the x-mirror on a plane and on a standard conic: the normal
+at the mirrored point is the mirrored normal, refraction/reflection are equivariant, a
+`SimpleCoating` multiplies the intensity by a constant -/
+theorem interact_mirX (s : RSurf ℝ) (hg : Simple s.geom) (r : Ray ℝ) :
+    interact s (mirX r) = mirX (interact s r) := by
+  obtain ⟨kind, cs, geom, n1, n2, k1, refl, ap, coat⟩ := s
+  simp only at hg
+  have key : ∀ nx ny nz : ℝ, geom.normal r = (nx, ny, nz) → geom.normal (mirX r) = (-nx, ny, nz) := by
+    intro nx ny nz h
+    rcases hg with h0 | ⟨R, k, h0⟩ <;> subst h0
+    · simp only [Geom.normal, Prod.mk.injEq] at h ⊢
+      num_real
+      obtain ⟨h1, h2, h3⟩ := h
+      exact ⟨by rw [← h1, neg_zero], h2, h3⟩
+    · simp only [Geom.normal] at h ⊢
+      have : (mirX r).x = -r.x := rfl
+      rw [this, show (mirX r).y = r.y from rfl, stdNormal_mirX, h]
+  rcases hn : geom.normal r with ⟨nx, ny, nz⟩
+  have hm := key nx ny nz hn
+  cases kind <;> cases refl <;> rcases coat with _ | ⟨T, Rc⟩ <;>
+    simp only [interact, hn, hm, refract_mirX, reflect_mirX, Bool.false_eq_true, if_false, if_true] <;> rfl
+
+theorem surfStep_mirX (s : RSurf ℝ) (w : ℝ) (hx : s.cs.x = 0) (hry : s.cs.ry = 0) (hrz : s.cs.rz = 0)
+    (hg : Simple s.geom) (r : Ray ℝ) (t : ℝ) :
+    surfStep s w (mirX r) t = mirX (surfStep s w r t) := by
+  unfold surfStep
+  rw [propagate_mirX]
+  have e : ∀ q : Ray ℝ, ({ (mirX q) with opd := (mirX q).opd + Num.abs (t * s.n1) } : Ray ℝ) =
+      mirX { q with opd := q.opd + Num.abs (t * s.n1) } := fun _ => rfl
+  rw [e, clip_mirX, interact_mirX s hg, globalize_mirX _ hx hry hrz]
+
+theorem surfRay_mirX (s : RSurf ℝ) (w : ℝ) (hx : s.cs.x = 0) (hry : s.cs.ry = 0) (hrz : s.cs.rz = 0)
+    (hg : Simple s.geom) (r : Ray ℝ) :
+    surfRay s w (mirX r) = mirX (surfRay s w r) := by
+  unfold surfRay
+  rw [localize_mirX _ hx hry hrz, dist1_mirX, surfStep_mirX s w hx hry hrz hg]
+
+/-- **mirror_trace, one surface.**  For a surface whose frame has no decentre in x and no tilt
+about y and z (`rx` arbitrary) and whose geometry is a plane or a standard conic — any radial
+aperture, any `SimpleCoating`, refracting or reflecting, any surface kind — tracing the
+x-mirrored batch gives the x-mirrored records: position, direction, intensity and opd.
+(The even asphere is symmetric too but goes through the batch-coupled Newton–Raphson loop;
+polynomial / Chebyshev geometries are symmetric only if all odd x-powers vanish.  Both are left
+out here.  With `cs.x ≠ 0`, `cs.ry ≠ 0` or `cs.rz ≠ 0` the statement is false.) -/
+theorem traceSurf_mirX (s : RSurf ℝ) (w : ℝ) (hx : s.cs.x = 0) (hry : s.cs.ry = 0) (hrz : s.cs.rz = 0)
+    (hg : s.geom = .plane ∨ ∃ R k, s.geom = .standard R k) (rays : List (Ray ℝ)) :
+    traceSurf s w (rays.map mirX) = (traceSurf s w rays).map mirX := by
+  by_cases hk : s.kind = .object
+  · rw [traceSurf_object _ _ _ hk, traceSurf_object _ _ _ hk]
+  · rw [traceSurf_eq_map _ _ _ hk hg, traceSurf_eq_map _ _ _ hk hg, List.map_map, List.map_map]
+    apply List.map_congr_left
+    intro r _
+    exact surfRay_mirX s w hx hry hrz hg r
+
+/-- **mirror_trace, whole lens.**  If every surface satisfies the guard of `traceSurf_mirX`, the
+record list (one batch per surface) of the mirrored batch is the mirror image of the record list. -/
+theorem traceLens_mirX (w : ℝ) (ss : List (RSurf ℝ))
+    (h : ∀ s ∈ ss, s.cs.x = 0 ∧ s.cs.ry = 0 ∧ s.cs.rz = 0 ∧
+      (s.geom = .plane ∨ ∃ R k, s.geom = .standard R k)) (rays : List (Ray ℝ)) :
+    traceLens w ss (rays.map mirX) = (traceLens w ss rays).map (List.map mirX) := by
+  apply traceLens_equivariant mirX w w ss ss
+  rw [List.forall₂_same]
+  intro s hs rays
+  obtain ⟨hx, hry, hrz, hg⟩ := h s hs
+  exact traceSurf_mirX s w hx hry hrz hg rays
+
+/-! non-vacuity: a tilted (about x), y-decentred, coated, apertured conic satisfies the guard -/
+noncomputable def exConic : RSurf ℝ :=
+  { kind := .standard, cs := ⟨0, 0.3, 5, 0.1, 0, 0⟩, geom := .standard 50 (-0.5), n1 := 1, n2 := 1.5,
+    k1 := 0, refl := false, aperture := some (10, 0), coating := some (0.98, 0.02) }
+noncomputable def exPlaneMirror : RSurf ℝ :=
+  { kind := .standard, cs := ⟨0, 0, 12, 0, 0, 0⟩, geom := .plane, n1 := 1.5, n2 := 1.5,
+    k1 := 0, refl := true, aperture := none, coating := none }
+noncomputable def exImage : RSurf ℝ :=
+  { kind := .image, cs := ⟨0, 0, 2, 0, 0, 0⟩, geom := .plane, n1 := 1.5, n2 := 1.5,
+    k1 := 0, refl := false, aperture := none, coating := none }
+
+example (w : ℝ) (rays : List (Ray ℝ)) :
+    traceSurf exConic w (rays.map mirX) = (traceSurf exConic w rays).map mirX :=
+  traceSurf_mirX exConic w rfl rfl rfl (Or.inr ⟨_, _, rfl⟩) rays
+
+example (w : ℝ) (rays : List (Ray ℝ)) :
+    traceLens w [exConic, exPlaneMirror, exImage] (rays.map mirX) =
+      (traceLens w [exConic, exPlaneMirror, exImage] rays).map (List.map mirX) := by
+  apply traceLens_mirX
+  intro s hs
+  simp only [List.mem_cons, List.not_mem_nil, or_false] at hs
+  rcases hs with h | h | h <;> subst h
+  · exact ⟨rfl, rfl, rfl, Or.inr ⟨_, _, rfl⟩⟩
+  · exact ⟨rfl, rfl, rfl, Or.inl rfl⟩
+  · exact ⟨rfl, rfl, rfl, Or.inl rfl⟩
+
+/-! ### scaling all lengths by c > 0: one surface, whole lens -/
+
+/-- the geometry of the scaled lens: radius × c, conic constant unchanged -/
+noncomputable def scaleGeom (c : ℝ) : Geom ℝ → Geom ℝ
+  | .plane => .plane
+  | .standard R k => .standard (c * R) k
+  | g => g
+
+/-- the surface of the scaled lens: vertex position, radius of curvature and aperture radii × c;
+tilts, conic constant, indices, extinction coefficient, coating unchanged -/
+noncomputable def scaleSurf (c : ℝ) (s : RSurf ℝ) : RSurf ℝ :=
+  { s with cs := { s.cs with x := c * s.cs.x, y := c * s.cs.y, z := c * s.cs.z },
+           geom := scaleGeom c s.geom,
+           aperture := s.aperture.map (fun a => (c * a.1, c * a.2)) }
+
+theorem translate_scale (c : ℝ) (r : Ray ℝ) (dx dy dz : ℝ) :
+    (scaleRay c r).translate (c * dx) (c * dy) (c * dz) = scaleRay c (r.translate dx dy dz) := by
+  unfold Ray.translate scaleRay
+  num_real
+  simp only [Ray.mk.injEq, true_and, and_true]
+  refine ⟨by ring, by ring, by ring⟩
+
+theorem rotateX_scale (c : ℝ) (r : Ray ℝ) (a : ℝ) :
+    (scaleRay c r).rotateX a = scaleRay c (r.rotateX a) := by
+  unfold Ray.rotateX scaleRay
+  num_real
+  simp only [Ray.mk.injEq, true_and, and_true]
+  refine ⟨by ring, by ring⟩
+
+theorem rotateY_scale (c : ℝ) (r : Ray ℝ) (a : ℝ) :
+    (scaleRay c r).rotateY a = scaleRay c (r.rotateY a) := by
+  unfold Ray.rotateY scaleRay
+  num_real
+  simp only [Ray.mk.injEq, true_and, and_true]
+  refine ⟨by ring, by ring⟩
+
+theorem rotateZ_scale (c : ℝ) (r : Ray ℝ) (a : ℝ) :
+    (scaleRay c r).rotateZ a = scaleRay c (r.rotateZ a) := by
+  unfold Ray.rotateZ scaleRay
+  num_real
+  simp only [Ray.mk.injEq, true_and, and_true]
+  refine ⟨by ring, by ring⟩
+
+/-- `localize` into the scaled frame of the scaled ray = scaled `localize` (any decentre, any tilt) -/
+theorem localize_scale (c : ℝ) (cs : Cs ℝ) (r : Ray ℝ) :
+    Cs.localize { cs with x := c * cs.x, y := c * cs.y, z := c * cs.z } (scaleRay c r) =
+      scaleRay c (cs.localize r) := by
+  unfold Cs.localize
+  simp only
+  have e' : ∀ v : ℝ, (-(c * v) : ℝ) = c * Num.neg v := by intro v; num_real; ring
+  rw [show (-(c * cs.x) : ℝ) = c * Num.neg cs.x from e' _, show (-(c * cs.y) : ℝ) = c * Num.neg cs.y from e' _,
+    show (-(c * cs.z) : ℝ) = c * Num.neg cs.z from e' _, translate_scale]
+  cases truthy cs.rx <;> cases truthy cs.ry <;> cases truthy cs.rz <;>
+    simp only [Bool.false_eq_true, if_false, if_true, rotateX_scale, rotateY_scale, rotateZ_scale] <;> rfl
+
+theorem globalize_scale (c : ℝ) (cs : Cs ℝ) (r : Ray ℝ) :
+    Cs.globalize { cs with x := c * cs.x, y := c * cs.y, z := c * cs.z } (scaleRay c r) =
+      scaleRay c (cs.globalize r) := by
+  unfold Cs.globalize
+  simp only
+  cases truthy cs.rx <;> cases truthy cs.ry <;> cases truthy cs.rz <;>
+    simp only [Bool.false_eq_true, if_false, if_true, rotateX_scale, rotateY_scale, rotateZ_scale,
+      translate_scale]
+
+/-- the distance to the vertex plane scales (both branches of the `t < 0` mask; the masked value
+`nan` is the junk value `0/0 = 0` over ℝ on both sides) -/
+theorem planeDistance_scale (c : ℝ) (r : Ray ℝ) (hc : 0 < c) :
+    planeDistance (scaleRay c r) = c * planeDistance r := by
+  unfold planeDistance maskNeg scaleRay
+  num_real
+  have e : -(c * r.z) / r.N = c * (-r.z / r.N) := by ring
+  rw [e]
+  have neg : (c * (-r.z / r.N) < 0) ↔ (-r.z / r.N < 0) := by
+    constructor
+    · intro h; by_contra hc'; have hc' := not_lt.mp hc'; nlinarith
+    · intro h; nlinarith
+  simp only [neg]
+  split_ifs
+  · simp
+  · rfl
+
+theorem dist1_scale (c : ℝ) (g : Geom ℝ) (r : Ray ℝ) (hc : 0 < c) :
+    dist1 (scaleGeom c g) (scaleRay c r) = c * dist1 g r := by
+  cases g <;> simp only [dist1, scaleGeom, planeDistance_scale c r hc, stdDistance_scale c _ _ r hc, mul_zero]
+
+/-- propagation by the scaled distance.  The Beer–Lambert factor `exp(-4πk/λ · t · 1000)` is
+invariant only if the medium does not absorb (`k = 0`) or the wavelength is scaled as well. -/
+theorem propagate_scale (c : ℝ) (r : Ray ℝ) (t k w w' : ℝ) (hc : 0 < c) (hI : k = 0 ∨ w' = c * w) :
+    (scaleRay c r).propagate (c * t) k w' = scaleRay c (r.propagate t k w) := by
+  unfold Ray.propagate scaleRay
+  num_real
+  have hx : -((4:ℕ) / (1:ℕ) * Real.pi * k / w') * (c * t) * ((1000:ℕ) / (1:ℕ)) =
+      -((4:ℕ) / (1:ℕ) * Real.pi * k / w) * t * ((1000:ℕ) / (1:ℕ)) := by
+    rcases hI with h | h
+    · rw [h]; simp
+    · rw [h]
+      by_cases hw : w = 0
+      · rw [hw]; simp
+      · have hc' : c ≠ 0 := ne_of_gt hc
+        field_simp
+  simp only [hx, Ray.mk.injEq, true_and, and_true]
+  refine ⟨by ring, by ring, by ring⟩
+
+theorem opd_scale (c : ℝ) (q : Ray ℝ) (t n : ℝ) (hc : 0 < c) :
+    ({ (scaleRay c q) with opd := (scaleRay c q).opd + Num.abs (c * t * n) } : Ray ℝ) =
+      scaleRay c { q with opd := q.opd + Num.abs (t * n) } := by
+  unfold scaleRay
+  num_real
+  simp only [Ray.mk.injEq, true_and, and_true]
+  rw [mul_assoc, abs_mul, abs_of_pos hc]
+  ring
+
+theorem clip_scale (c : ℝ) (ap : Option (ℝ × ℝ)) (r : Ray ℝ) (hc : 0 < c) :
+    clip (ap.map (fun a => (c * a.1, c * a.2))) (scaleRay c r) = scaleRay c (clip ap r) := by
+  rcases ap with _ | ⟨rmax, rmin⟩
+  · rfl
+  · simp only [Option.map_some, clip]
+    have hx : (scaleRay c r).x = c * r.x := rfl
+    have hy : (scaleRay c r).y = c * r.y := rfl
+    rw [hx, hy]
+    have hc2 : 0 < c * c := mul_pos hc hc
+    have e1 : Num.lt (c * rmax * (c * rmax)) (c * r.x * (c * r.x) + c * r.y * (c * r.y)) =
+        Num.lt (rmax * rmax) (r.x * r.x + r.y * r.y) := by
+      rw [NumReal.lt_decide, NumReal.lt_decide]
+      apply decide_eq_decide.mpr
+      have : c * r.x * (c * r.x) + c * r.y * (c * r.y) - c * rmax * (c * rmax) =
+        (c * c) * (r.x * r.x + r.y * r.y - rmax * rmax) := by ring
+      constructor
+      · intro h; by_contra h'; have h' := not_lt.mp h'; nlinarith
+      · intro h; nlinarith
+    have e2 : Num.lt (c * r.x * (c * r.x) + c * r.y * (c * r.y)) (c * rmin * (c * rmin)) =
+        Num.lt (r.x * r.x + r.y * r.y) (rmin * rmin) := by
+      rw [NumReal.lt_decide, NumReal.lt_decide]
+      apply decide_eq_decide.mpr
+      have : c * rmin * (c * rmin) - (c * r.x * (c * r.x) + c * r.y * (c * r.y)) =
+        (c * c) * (rmin * rmin - (r.x * r.x + r.y * r.y)) := by ring
+      constructor
+      · intro h; by_contra h'; have h' := not_lt.mp h'; nlinarith
+      · intro h; nlinarith
+    simp only [e1, e2]
+    split_ifs <;> rfl
+
+/-- `Surface._interact` on the scaled surface: same unit normal, same refraction/reflection,
+same coating factor; positions and path are not touched -/
+theorem interact_scale (c : ℝ) (s : RSurf ℝ) (hg : Simple s.geom) (hc : 0 < c) (r : Ray ℝ) :
+    interact (scaleSurf c s) (scaleRay c r) = scaleRay c (interact s r) := by
+  obtain ⟨kind, cs, geom, n1, n2, k1, refl, ap, coat⟩ := s
+  simp only at hg
+  have key : (scaleGeom c geom).normal (scaleRay c r) = geom.normal r := by
+    rcases hg with h0 | ⟨R, k, h0⟩ <;> subst h0
+    · rfl
+    · simp only [Geom.normal, scaleGeom]
+      rw [show (scaleRay c r).x = c * r.x from rfl, show (scaleRay c r).y = c * r.y from rfl,
+        stdNormal_scale c R k r.x r.y hc]
+  rcases hn : geom.normal r with ⟨nx, ny, nz⟩
+  rw [hn] at key
+  cases kind <;> cases refl <;> rcases coat with _ | ⟨T, Rc⟩ <;>
+    simp only [interact, scaleSurf, hn, key, Bool.false_eq_true, if_false, if_true] <;> rfl
+
+theorem surfStep_scale (c : ℝ) (s : RSurf ℝ) (w w' : ℝ) (hg : Simple s.geom) (hc : 0 < c)
+    (hI : s.k1 = 0 ∨ w' = c * w) (r : Ray ℝ) (t : ℝ) :
+    surfStep (scaleSurf c s) w' (scaleRay c r) (c * t) = scaleRay c (surfStep s w r t) := by
+  unfold surfStep
+  have h1 : (scaleSurf c s).k1 = s.k1 := rfl
+  have h2 : (scaleSurf c s).n1 = s.n1 := rfl
+  have h3 : (scaleSurf c s).aperture = s.aperture.map (fun a => (c * a.1, c * a.2)) := rfl
+  have h4 : (scaleSurf c s).cs = { s.cs with x := c * s.cs.x, y := c * s.cs.y, z := c * s.cs.z } := rfl
+  rw [h1, h2, h3, h4, propagate_scale c r t s.k1 w w' hc hI, opd_scale c _ t s.n1 hc, clip_scale c _ _ hc,
+    interact_scale c s hg hc, globalize_scale]
+
+theorem surfRay_scale (c : ℝ) (s : RSurf ℝ) (w w' : ℝ) (hg : Simple s.geom) (hc : 0 < c)
+    (hI : s.k1 = 0 ∨ w' = c * w) (r : Ray ℝ) :
+    surfRay (scaleSurf c s) w' (scaleRay c r) = scaleRay c (surfRay s w r) := by
+  unfold surfRay
+  have h4 : (scaleSurf c s).cs = { s.cs with x := c * s.cs.x, y := c * s.cs.y, z := c * s.cs.z } := rfl
+  have h5 : (scaleSurf c s).geom = scaleGeom c s.geom := rfl
+  rw [h4, h5, localize_scale, dist1_scale c _ _ hc]
+  exact surfStep_scale c s w w' hg hc hI _ _
+
+theorem simple_scaleGeom (c : ℝ) (g : Geom ℝ) (hg : Simple g) : Simple (scaleGeom c g) := by
+  rcases hg with h | ⟨R, k, h⟩ <;> subst h
+  · exact Or.inl rfl
+  · exact Or.inr ⟨_, _, rfl⟩
+
+/-- **scale_trace, one surface (general form).**  `w'` is the wavelength used for the scaled
+system: either the medium in front of the surface does not absorb, or the wavelength is scaled
+together with all other lengths. -/
+theorem traceSurf_scale_gen (c : ℝ) (s : RSurf ℝ) (w w' : ℝ) (hc : 0 < c)
+    (hg : s.geom = .plane ∨ ∃ R k, s.geom = .standard R k) (hI : s.k1 = 0 ∨ w' = c * w)
+    (rays : List (Ray ℝ)) :
+    traceSurf (scaleSurf c s) w' (rays.map (scaleRay c)) = (traceSurf s w rays).map (scaleRay c) := by
+  by_cases hk : s.kind = .object
+  · rw [traceSurf_object _ _ _ hk, traceSurf_object (scaleSurf c s) _ _ hk]
+  · rw [traceSurf_eq_map s _ _ hk hg, traceSurf_eq_map (scaleSurf c s) _ _ hk (simple_scaleGeom c _ hg),
+      List.map_map, List.map_map]
+    apply List.map_congr_left
+    intro r _
+    exact surfRay_scale c s w w' hg hc hI r
+
+/-- **scale_trace, one surface.**  Scale vertex position, radius of curvature and aperture radii
+of a plane / standard-conic surface by `c > 0` (tilts, conic constant, indices, coating unchanged)
+and the rays' positions and accumulated path by `c`: every record of `traceSurf` has position and
+opd × c, direction and intensity unchanged — the intensity under the guard `k1 = 0`: with an
+absorbing medium the Beer–Lambert factor `exp(-4πk·t/λ)` sees the longer path (use
+`traceSurf_scale_gen` with `w' = c·w` for that case). -/
+theorem traceSurf_scale (c : ℝ) (s : RSurf ℝ) (w : ℝ) (hc : 0 < c)
+    (hg : s.geom = .plane ∨ ∃ R k, s.geom = .standard R k) (hk1 : s.k1 = 0) (rays : List (Ray ℝ)) :
+    traceSurf (scaleSurf c s) w (rays.map (scaleRay c)) = (traceSurf s w rays).map (scaleRay c) :=
+  traceSurf_scale_gen c s w w hc hg (Or.inl hk1) rays
+
+/-- **scale_trace, whole lens.**  The record list of the scaled batch through the scaled lens is
+the scaled record list — all media non-absorbing. -/
+theorem traceLens_scale (c : ℝ) (w : ℝ) (hc : 0 < c) (ss : List (RSurf ℝ))
+    (h : ∀ s ∈ ss, (s.geom = .plane ∨ ∃ R k, s.geom = .standard R k) ∧ s.k1 = 0)
+    (rays : List (Ray ℝ)) :
+    traceLens w (ss.map (scaleSurf c)) (rays.map (scaleRay c)) =
+      (traceLens w ss rays).map (List.map (scaleRay c)) := by
+  apply traceLens_equivariant (scaleRay c) w w ss (ss.map (scaleSurf c))
+  rw [List.forall₂_map_right_iff, List.forall₂_same]
+  intro s hs rays
+  exact traceSurf_scale c s w hc (h s hs).1 (h s hs).2 rays
+
+/-- **scale_trace, whole lens, absorbing media**: if the wavelength is scaled with the lens the
+intensity is invariant too (the extinction coefficients `k1` being the same numbers). -/
+theorem traceLens_scale_wavelength (c : ℝ) (w : ℝ) (hc : 0 < c) (ss : List (RSurf ℝ))
+    (h : ∀ s ∈ ss, s.geom = .plane ∨ ∃ R k, s.geom = .standard R k) (rays : List (Ray ℝ)) :
+    traceLens (c * w) (ss.map (scaleSurf c)) (rays.map (scaleRay c)) =
+      (traceLens w ss rays).map (List.map (scaleRay c)) := by
+  apply traceLens_equivariant (scaleRay c) w (c * w) ss (ss.map (scaleSurf c))
+  rw [List.forall₂_map_right_iff, List.forall₂_same]
+  intro s hs rays
+  exact traceSurf_scale_gen c s w (c * w) hc (h s hs) (Or.inr rfl) rays
+
+example (w : ℝ) (rays : List (Ray ℝ)) :
+    traceLens w ([exConic, exPlaneMirror, exImage].map (scaleSurf 2.5)) (rays.map (scaleRay 2.5)) =
+      (traceLens w [exConic, exPlaneMirror, exImage] rays).map (List.map (scaleRay 2.5)) := by
+  apply traceLens_scale 2.5 w (by norm_num)
+  intro s hs
+  simp only [List.mem_cons, List.not_mem_nil, or_false] at hs
+  rcases hs with h | h | h <;> subst h
+  · exact ⟨Or.inr ⟨_, _, rfl⟩, rfl⟩
+  · exact ⟨Or.inl rfl, rfl⟩
+  · exact ⟨Or.inl rfl, rfl⟩
+
+/-! ### a dummy surface between equal media is transparent -/
+
+/-- refraction between equal indices returns the very same ray record -/
+theorem refract_same_index_ray (r : Ray ℝ) (nx ny nz n : ℝ) (hn0 : n ≠ 0)
+    (hn : nx^2 + ny^2 + nz^2 = 1) (hd : r.L*nx + r.M*ny + r.N*nz ≠ 0) :
+    r.refract nx ny nz n n = r := by
+  have h := refract_same_index r nx ny nz n hn0 hn hd
+  have e : r.refract nx ny nz n n = ⟨r.x, r.y, r.z, (r.refract nx ny nz n n).L,
+      (r.refract nx ny nz n n).M, (r.refract nx ny nz n n).N, r.i, r.opd⟩ := rfl
+  rw [e, h.1, h.2.1, h.2.2]
+
+/-- the dummy surface: an untilted plane with vertex anywhere, the same non-zero index on both sides,
+refracting, no aperture, no coating (its `k1` is the extinction coefficient of that medium) -/
+def IsDummy (d : RSurf ℝ) : Prop :=
+  d.kind = .standard ∧ d.geom = .plane ∧ d.cs.rx = 0 ∧ d.cs.ry = 0 ∧ d.cs.rz = 0 ∧
+    d.n1 = d.n2 ∧ d.n1 ≠ 0 ∧ d.refl = false ∧ d.aperture = none ∧ d.coating = none
+
+/-- distance along the ray to the plane `z = d.cs.z` -/
+noncomputable def dummyT (d : RSurf ℝ) (r : Ray ℝ) : ℝ := (d.cs.z - r.z) / r.N
+
+/-- what the dummy surface does to one ray that reaches it going forward: it moves the ray onto
+the plane — position, Beer–Lambert factor and `|t·n|` of that segment — and leaves the direction alone -/
+theorem surfRay_dummy (d : RSurf ℝ) (w : ℝ) (hd : IsDummy d) (r : Ray ℝ) (hN : r.N ≠ 0)
+    (ht : 0 ≤ dummyT d r) :
+    surfRay d w r = advance r (dummyT d r) d.k1 w d.n1 := by
+  obtain ⟨kind, ⟨x0, y0, z0, rx, ry, rz⟩, geom, n1, n2, k1, refl, ap, coat⟩ := d
+  simp only [IsDummy] at hd
+  obtain ⟨rfl, rfl, rfl, rfl, rfl, rfl, hn0, rfl, rfl, rfl⟩ := hd
+  simp only [dummyT] at ht ⊢
+  have hloc : Cs.localize (⟨x0, y0, z0, 0, 0, 0⟩ : Cs ℝ) r = r.translate (-x0) (-y0) (-z0) := by
+    unfold Cs.localize
+    simp only [truthy_zero, Bool.false_eq_true, if_false]
+  have hglob : ∀ q : Ray ℝ, Cs.globalize (⟨x0, y0, z0, 0, 0, 0⟩ : Cs ℝ) q = q.translate x0 y0 z0 := by
+    intro q
+    unfold Cs.globalize
+    simp only [truthy_zero, Bool.false_eq_true, if_false]
+  have hdist : planeDistance (r.translate (-x0) (-y0) (-z0)) = (z0 - r.z) / r.N := by
+    unfold planeDistance maskNeg Ray.translate
+    num_real
+    have e : -(r.z + -z0) / r.N = (z0 - r.z) / r.N := by ring
+    rw [e, if_neg (not_lt.mpr ht)]
+  have hint : ∀ q : Ray ℝ, q.N ≠ 0 → interact (⟨.standard, ⟨x0, y0, z0, 0, 0, 0⟩, .plane, n1, n1, k1, false, none, none⟩ : RSurf ℝ) q = q := by
+    intro q hq
+    have : interact (⟨.standard, ⟨x0, y0, z0, 0, 0, 0⟩, .plane, n1, n1, k1, false, none, none⟩ : RSurf ℝ) q =
+        q.refract 0 0 1 n1 n1 := rfl
+    rw [this]
+    exact refract_same_index_ray q 0 0 1 n1 hn0 (by norm_num) (by simpa using hq)
+  have hback : (r.translate (-x0) (-y0) (-z0)).translate x0 y0 z0 = r := by
+    unfold Ray.translate
+    num_real
+    simp only [neg_add_cancel_right]
+  unfold surfRay
+  rw [surfStep_eq]
+  simp only [dist1, clip]
+  rw [hloc, hdist, hglob, hint, translate_advance, hback]
+  rw [advance_eq]
+  exact hN
+
+/-- per-ray guard for the ray `r` that arrives at the dummy `d`, `S` being the surface after it:
+the ray is not parallel to the dummy plane, reaches it going forward (`0 ≤ t`), and the dummy plane
+lies before the intersection of the ray with `S` (`Cov.Ahead`, in the frame of `S`: for a plane
+`t ≤ -z/N`; for a conic `Cov.RootsAhead`: `t ≤` the selected root of the quadratic, see there for
+the case of a root behind the ray, whose masked value `inf` is a junk value over ℝ).
+At the excluded points the code does something else: with `t < 0` (dummy plane behind the ray)
+`Plane.distance` masks the distance to NaN and the ray is lost; with the dummy plane beyond `S` the
+root towards `S` becomes negative and is masked to `inf`. -/
+def DummyGuard (d S : RSurf ℝ) (r : Ray ℝ) : Prop :=
+  r.N ≠ 0 ∧ 0 ≤ dummyT d r ∧ Ahead S.geom (S.cs.localize r) (dummyT d r)
+
+theorem surfRay_after_dummy (d S : RSurf ℝ) (w : ℝ) (hd : IsDummy d) (hn : S.n1 = d.n1)
+    (hk : S.k1 = d.k1) (r : Ray ℝ) (hg : DummyGuard d S r) :
+    surfRay S w (surfRay d w r) = surfRay S w r := by
+  obtain ⟨hN, ht, hA⟩ := hg
+  rw [surfRay_dummy d w hd r hN ht, ← hn, ← hk]
+  unfold surfRay
+  rw [localize_advance]
+  obtain ⟨h1, h2⟩ := dist1_advance S.geom (S.cs.localize r) (dummyT d r) S.k1 w S.n1 ht hA
+  rw [h1, surfStep_eq, surfStep_eq, advance_add _ _ _ _ _ _ ht (sub_nonneg.mpr h2), add_sub_cancel]
+
+/-- **dummy_surface, one step.**  (a) the record at the dummy is the incoming batch moved onto the
+dummy plane (same directions; position, absorption and `|t·n|` of that first part of the gap);
+(b) the surface after the dummy produces the same records — position, direction, intensity and
+accumulated path — as without the dummy: the gap is split, `|t₁n| + |t₂n| = |(t₁+t₂)n|`,
+`e^{-αt₁}e^{-αt₂} = e^{-α(t₁+t₂)}`. -/
+theorem dummy_then_surface (d S : RSurf ℝ) (w : ℝ) (hd : IsDummy d) (hn : S.n1 = d.n1) (hk : S.k1 = d.k1)
+    (hkind : S.kind ≠ .object) (rays : List (Ray ℝ)) (hg : ∀ r ∈ rays, DummyGuard d S r) :
+    traceSurf d w rays = rays.map (fun r => advance r (dummyT d r) d.k1 w d.n1) ∧
+      traceSurf S w (traceSurf d w rays) = traceSurf S w rays := by
+  have hdk : d.kind ≠ .object := by rw [hd.1]; decide
+  have hdg : Simple d.geom := Or.inl hd.2.1
+  have e1 : traceSurf d w rays = rays.map (surfRay d w) := traceSurf_eq_map d w rays hdk hdg
+  refine ⟨?_, ?_⟩
+  · rw [e1]
+    apply List.map_congr_left
+    intro r hr
+    exact surfRay_dummy d w hd r (hg r hr).1 (hg r hr).2.1
+  · rcases rays with _ | ⟨r0, rs⟩
+    · rw [e1]; rfl
+    · have hS : Simple S.geom := simple_of_ahead _ _ _ (hg r0 (List.mem_cons_self)).2.2
+      rw [e1, traceSurf_eq_map S w _ hkind hS, traceSurf_eq_map S w _ hkind hS, List.map_map]
+      apply List.map_congr_left
+      intro r hr
+      exact surfRay_after_dummy d S w hd hn hk r (hg r hr)
+
+/-- **dummy_surface_transparent.**  Insert a dummy plane `d` (same medium on both sides, no aperture,
+no coating, refracting, untilted, vertex anywhere) in front of surface `S` of a lens
+`pre ++ S :: post` (`S` a plane or a standard conic, possibly the image surface).  If every ray that
+leaves `pre` reaches the dummy plane going forward and before it reaches `S`, then deleting the
+dummy's own record from the record list of `pre ++ d :: S :: post` gives exactly the record list of
+`pre ++ S :: post`: no downstream position, direction, intensity or opd changes. -/
+theorem dummy_surface_transparent (w : ℝ) (pre post : List (RSurf ℝ)) (d S : RSurf ℝ)
+    (hd : IsDummy d) (hn : S.n1 = d.n1) (hk : S.k1 = d.k1) (hkind : S.kind ≠ .object)
+    (rays : List (Ray ℝ)) (hg : ∀ r ∈ (traceLens w pre rays).getLastD rays, DummyGuard d S r) :
+    (traceLens w (pre ++ d :: S :: post) rays).eraseIdx pre.length =
+      traceLens w (pre ++ S :: post) rays := by
+  rw [← finalRays_eq_getLastD] at hg
+  rw [traceLens_append, traceLens_append]
+  simp only [traceLens]
+  rw [(dummy_then_surface d S w hd hn hk hkind _ hg).2,
+    List.eraseIdx_append_of_length_le (by rw [traceLens_length]), traceLens_length, Nat.sub_self,
+    List.eraseIdx_cons_zero]
+
+/-! non-vacuity of `dummy_surface_transparent`: object surface, dummy plane at z = 3 in air, a sphere
+R = 50 at z = 5 (air → glass), image plane; the ray starts at height 1 parallel to the axis. -/
+noncomputable def exObject : RSurf ℝ :=
+  { kind := .object, cs := ⟨0, 0, 0, 0, 0, 0⟩, geom := .plane, n1 := 1, n2 := 1,
+    k1 := 0, refl := false, aperture := none, coating := none }
+noncomputable def exDummy : RSurf ℝ :=
+  { kind := .standard, cs := ⟨0, 0, 3, 0, 0, 0⟩, geom := .plane, n1 := 1, n2 := 1,
+    k1 := 0, refl := false, aperture := none, coating := none }
+noncomputable def exSphere : RSurf ℝ :=
+  { kind := .standard, cs := ⟨0, 0, 5, 0, 0, 0⟩, geom := .standard 50 0, n1 := 1, n2 := 1.5,
+    k1 := 0, refl := false, aperture := some (10, 0), coating := none }
+noncomputable def exRay : Ray ℝ := ⟨1, 0, 0, 0, 0, 1, 1, 0⟩
+
+example : IsDummy exDummy := by
+  refine ⟨rfl, rfl, rfl, rfl, rfl, rfl, ?_, rfl, rfl, rfl⟩
+  show (1:ℝ) ≠ 0
+  norm_num
+
+theorem exGuard : DummyGuard exDummy exSphere exRay := by
+  have hloc : exSphere.cs.localize exRay = ⟨1, 0, -5, 0, 0, 1, 1, 0⟩ := by
+    unfold Cs.localize exSphere exRay
+    simp only [truthy_zero, Bool.false_eq_true, if_false]
+    unfold Ray.translate
+    num_real
+    norm_num
+  have ht : dummyT exDummy exRay = 3 := by
+    unfold dummyT exDummy exRay
+    norm_num
+  refine ⟨?_, ?_, ?_⟩
+  · show (1:ℝ) ≠ 0
+    norm_num
+  · rw [ht]; norm_num
+  · rw [ht, hloc]
+    show RootsAhead _ _ _ _ _ 3
+    rw [conicABC_eq]
+    simp only
+    norm_num
+    unfold RootsAhead
+    right; left
+    have hs : Real.sqrt 9996 ≤ 104 := by
+      rw [Real.sqrt_le_iff]; norm_num
+    have hs0 : 0 ≤ Real.sqrt 9996 := Real.sqrt_nonneg _
+    refine ⟨by norm_num, ?_, ?_⟩ <;> norm_num <;> linarith
+
+example (w : ℝ) :
+    (traceLens w ([exObject] ++ exDummy :: exSphere :: [exImage]) [exRay]).eraseIdx 1 =
+      traceLens w ([exObject] ++ exSphere :: [exImage]) [exRay] := by
+  apply dummy_surface_transparent w [exObject] [exImage] exDummy exSphere
+  · refine ⟨rfl, rfl, rfl, rfl, rfl, rfl, ?_, rfl, rfl, rfl⟩
+    show (1:ℝ) ≠ 0
+    norm_num
+  · rfl
+  · rfl
+  · show RKind.standard ≠ RKind.object
+    decide
+  · intro r hr
+    have : (traceLens w [exObject] [exRay]).getLastD [exRay] = [exRay] := by
+      simp only [traceLens, traceSurf_object exObject w [exRay] rfl, List.getLastD_cons, List.getLastD_nil]
+    rw [this, List.mem_singleton] at hr
+    rw [hr]
+    exact exGuard
+
+/-! ### mirror in x: the even asphere (batch-coupled Newton–Raphson intersection) -/
+
+/-- mirror image of a point -/
+def mirP (p : ℝ × ℝ × ℝ) : ℝ × ℝ × ℝ := (-p.1, p.2.1, p.2.2)
+
+theorem sphereGuess_mirX (R : ℝ) (r : Ray ℝ) : sphereGuess R (mirX r) = mirP (sphereGuess R r) := by
+  simp only [sphereGuess, mirX, mirP]
+  num_real
+  have e1 : -r.L * -r.L = r.L * r.L := by ring
+  have e2 : 2 * -r.L * -r.x = 2 * r.L * r.x := by ring
+  have e3 : -r.x * -r.x = r.x * r.x := by ring
+  simp only [e1, e2, e3, Prod.mk.injEq, and_true]
+  ring
+
+/-- one Newton–Raphson step for one ray: new point and `|dz|` -/
+noncomputable def nrStep (g : Geom ℝ) (p : ℝ × ℝ × ℝ) (r : Ray ℝ) : (ℝ × ℝ × ℝ) × ℝ :=
+  ((p.1 - (p.2.2 - g.nrSag p.1 p.2.1) / r.N * r.L, p.2.1 - (p.2.2 - g.nrSag p.1 p.2.1) / r.N * r.M,
+    p.2.2 - (p.2.2 - g.nrSag p.1 p.2.1) / r.N * r.N), |p.2.2 - g.nrSag p.1 p.2.1|)
+
+theorem nrSweep_eq (g : Geom ℝ) (rays : List (Ray ℝ)) (pts : List (ℝ × ℝ × ℝ)) :
+    nrSweep g rays pts = (((pts.zip rays).map (fun pr => nrStep g pr.1 pr.2)).map (·.1),
+      npMax (((pts.zip rays).map (fun pr => nrStep g pr.1 pr.2)).map (·.2))) := rfl
+
+theorem nrStep_mirX (g : Geom ℝ) (hsag : ∀ x y, g.nrSag (-x) y = g.nrSag x y) (p : ℝ × ℝ × ℝ) (r : Ray ℝ) :
+    nrStep g (mirP p) (mirX r) = (mirP (nrStep g p r).1, (nrStep g p r).2) := by
+  simp only [nrStep, mirP, mirX, hsag, Prod.mk.injEq, and_true, true_and]
+  ring
+
+theorem nrSweep_mirX (g : Geom ℝ) (hsag : ∀ x y, g.nrSag (-x) y = g.nrSag x y)
+    (rays : List (Ray ℝ)) (pts : List (ℝ × ℝ × ℝ)) :
+    nrSweep g (rays.map mirX) (pts.map mirP) =
+      ((nrSweep g rays pts).1.map mirP, (nrSweep g rays pts).2) := by
+  have hstep : (List.map (Prod.map mirP mirX) (pts.zip rays)).map (fun pr => nrStep g pr.1 pr.2) =
+      ((pts.zip rays).map (fun pr => nrStep g pr.1 pr.2)).map (fun q => (mirP q.1, q.2)) := by
+    rw [List.map_map, List.map_map]
+    apply List.map_congr_left
+    intro pr _
+    exact nrStep_mirX g hsag pr.1 pr.2
+  rw [nrSweep_eq, nrSweep_eq, List.zip_map, hstep]
+  simp only [List.map_map, Function.comp_def]
+
+theorem nrLoop_mirX (g : Geom ℝ) (hsag : ∀ x y, g.nrSag (-x) y = g.nrSag x y)
+    (rays : List (Ray ℝ)) (tol : ℝ) (n : ℕ) (pts : List (ℝ × ℝ × ℝ)) :
+    nrLoop g (rays.map mirX) tol n (pts.map mirP) = (nrLoop g rays tol n pts).map mirP := by
+  induction n generalizing pts with
+  | zero => rfl
+  | succ n ih =>
+    simp only [nrLoop, nrSweep_mirX g hsag]
+    split_ifs
+    · rfl
+    · exact ih _
+
+/-- the batch of Newton–Raphson distances is the same for the mirrored batch (same iteration count:
+the stopping test `max |dz| < tol` sees the same numbers) -/
+theorem nrDistance_mirX (g : Geom ℝ) (hsag : ∀ x y, g.nrSag (-x) y = g.nrSag x y)
+    (R tol : ℝ) (mi : ℕ) (rays : List (Ray ℝ)) :
+    nrDistance g R tol mi (rays.map mirX) = nrDistance g R tol mi rays := by
+  simp only [nrDistance]
+  have e : (rays.map mirX).map (sphereGuess R) = (rays.map (sphereGuess R)).map mirP := by
+    rw [List.map_map, List.map_map]
+    apply List.map_congr_left
+    intro r _
+    exact sphereGuess_mirX R r
+  rw [e, nrLoop_mirX g hsag, List.zip_map, List.map_map]
+  apply List.map_congr_left
+  intro pr _
+  simp only [Function.comp, Prod.map, mirP, mirX]
+  num_real
+  congr 1
+  ring
+
+theorem conicSag_mirX (R k x y : ℝ) : conicSag R k (-x) y = conicSag R k x y := by
+  unfold conicSag
+  num_real
+  simp only [neg_mul_neg]
+
+theorem asphSag_mirX (R k : ℝ) (c : List ℝ) (x y : ℝ) : asphSag R k c (-x) y = asphSag R k c x y := by
+  unfold asphSag
+  rw [conicSag_mirX]
+  num_real
+  simp only [neg_mul_neg]
+
+theorem conicSlope_mirX (R k x y : ℝ) :
+    conicSlope R k (-x) y = (-(conicSlope R k x y).1, (conicSlope R k x y).2) := by
+  unfold conicSlope
+  num_real
+  simp only [neg_mul_neg, Prod.mk.injEq, and_true]
+  ring
+
+theorem nrNormalize_neg (a b : ℝ) :
+    nrNormalize (-a) b = (-(nrNormalize a b).1, (nrNormalize a b).2.1, (nrNormalize a b).2.2) := by
+  unfold nrNormalize
+  num_real
+  simp only [neg_mul_neg, Prod.mk.injEq, and_true]
+  ring
+
+/-- the polynomial part of the even-asphere slope: the x-component changes sign with x -/
+theorem asphFold_mirX (x y r2 : ℝ) (l : List (ℝ × ℕ)) (a b : ℝ) :
+    l.foldl (fun (d : ℝ × ℝ) (ci : ℝ × ℕ) =>
+      (d.1 + 2 * (Num.ofNat (ci.2 + 1) : ℝ) * (-x) * ci.1 * ipow r2 ci.2,
+       d.2 + 2 * (Num.ofNat (ci.2 + 1) : ℝ) * y * ci.1 * ipow r2 ci.2)) (-a, b) =
+    (-(l.foldl (fun (d : ℝ × ℝ) (ci : ℝ × ℕ) =>
+      (d.1 + 2 * (Num.ofNat (ci.2 + 1) : ℝ) * x * ci.1 * ipow r2 ci.2,
+       d.2 + 2 * (Num.ofNat (ci.2 + 1) : ℝ) * y * ci.1 * ipow r2 ci.2)) (a, b)).1,
+     (l.foldl (fun (d : ℝ × ℝ) (ci : ℝ × ℕ) =>
+      (d.1 + 2 * (Num.ofNat (ci.2 + 1) : ℝ) * x * ci.1 * ipow r2 ci.2,
+       d.2 + 2 * (Num.ofNat (ci.2 + 1) : ℝ) * y * ci.1 * ipow r2 ci.2)) (a, b)).2) := by
+  induction l generalizing a b with
+  | nil => rfl
+  | cons ci l ih =>
+    simp only [List.foldl_cons]
+    have e : -a + 2 * (Num.ofNat (ci.2 + 1) : ℝ) * (-x) * ci.1 * ipow r2 ci.2 =
+        -(a + 2 * (Num.ofNat (ci.2 + 1) : ℝ) * x * ci.1 * ipow r2 ci.2) := by ring
+    rw [e, ih]
+
+theorem asphNormal_mirX (R k : ℝ) (c : List ℝ) (x y : ℝ) :
+    asphNormal R k c (-x) y =
+      (-(asphNormal R k c x y).1, (asphNormal R k c x y).2.1, (asphNormal R k c x y).2.2) := by
+  unfold asphNormal
+  rw [conicSlope_mirX]
+  have e' : (-x * -x : ℝ) = x * x := by ring
+  num_real
+  simp only [e']
+  have h := asphFold_mirX x y (x * x + y * y) c.zipIdx (conicSlope R k x y).1 (conicSlope R k x y).2
+  rw [h, nrNormalize_neg]
+
+/-- what `traceSurf` needs from a geometry to be mirror symmetric in x: the batch of distances of the
+mirrored batch is the same, and the normal at the mirrored point is the mirrored normal -/
+def MirSymGeom (g : Geom ℝ) : Prop :=
+  (∀ rays : List (Ray ℝ), g.distance (rays.map mirX) = g.distance rays) ∧
+  (∀ (r : Ray ℝ) (nx ny nz : ℝ), g.normal r = (nx, ny, nz) → g.normal (mirX r) = (-nx, ny, nz))
+
+theorem mirSym_plane : MirSymGeom (.plane : Geom ℝ) := by
+  refine ⟨fun rays => ?_, fun r nx ny nz h => ?_⟩
+  · simp only [Geom.distance, List.map_map]
+    rfl
+  · simp only [Geom.normal, Prod.mk.injEq] at h ⊢
+    num_real
+    obtain ⟨h1, h2, h3⟩ := h
+    exact ⟨by rw [← h1, neg_zero], h2, h3⟩
+
+theorem mirSym_standard (R k : ℝ) : MirSymGeom (.standard R k : Geom ℝ) := by
+  refine ⟨fun rays => ?_, fun r nx ny nz h => ?_⟩
+  · simp only [Geom.distance, List.map_map]
+    apply List.map_congr_left
+    intro r _
+    exact stdDistance_mirX R k r
+  · simp only [Geom.normal] at h ⊢
+    rw [show (mirX r).x = -r.x from rfl, show (mirX r).y = r.y from rfl, stdNormal_mirX, h]
+
+/-- the even asphere `z = conic(r²) + Σ cᵢ r^{2(i+1)}` is mirror symmetric, including its
+Newton–Raphson intersection with the batch-wide stopping test -/
+theorem mirSym_evenAsphere (R k tol : ℝ) (mi : ℕ) (c : List ℝ) :
+    MirSymGeom (.evenAsphere R k tol mi c : Geom ℝ) := by
+  refine ⟨fun rays => ?_, fun r nx ny nz h => ?_⟩
+  · simp only [Geom.distance]
+    exact nrDistance_mirX (.evenAsphere R k tol mi c) (fun x y => asphSag_mirX R k c x y) R tol mi rays
+  · simp only [Geom.normal] at h ⊢
+    rw [show (mirX r).x = -r.x from rfl, show (mirX r).y = r.y from rfl, asphNormal_mirX, h]
+
+theorem interact_mirX_sym (s : RSurf ℝ) (hg : MirSymGeom s.geom) (r : Ray ℝ) :
+    interact s (mirX r) = mirX (interact s r) := by
+  obtain ⟨kind, cs, geom, n1, n2, k1, refl, ap, coat⟩ := s
+  simp only at hg
+  rcases hn : geom.normal r with ⟨nx, ny, nz⟩
+  have hm := hg.2 r nx ny nz hn
+  cases kind <;> cases refl <;> rcases coat with _ | ⟨T, Rc⟩ <;>
+    simp only [interact, hn, hm, refract_mirX, reflect_mirX, Bool.false_eq_true, if_false, if_true] <;> rfl
+
+theorem surfStep_mirX_sym (s : RSurf ℝ) (w : ℝ) (hx : s.cs.x = 0) (hry : s.cs.ry = 0) (hrz : s.cs.rz = 0)
+    (hg : MirSymGeom s.geom) (r : Ray ℝ) (t : ℝ) :
+    surfStep s w (mirX r) t = mirX (surfStep s w r t) := by
+  unfold surfStep
+  rw [propagate_mirX]
+  have e : ∀ q : Ray ℝ, ({ (mirX q) with opd := (mirX q).opd + Num.abs (t * s.n1) } : Ray ℝ) =
+      mirX { q with opd := q.opd + Num.abs (t * s.n1) } := fun _ => rfl
+  rw [e, clip_mirX, interact_mirX_sym s hg, globalize_mirX _ hx hry hrz]
+
+theorem traceSurf_mirX_sym (s : RSurf ℝ) (w : ℝ) (hx : s.cs.x = 0) (hry : s.cs.ry = 0) (hrz : s.cs.rz = 0)
+    (hg : MirSymGeom s.geom) (rays : List (Ray ℝ)) :
+    traceSurf s w (rays.map mirX) = (traceSurf s w rays).map mirX := by
+  by_cases hk : s.kind = .object
+  · rw [traceSurf_object _ _ _ hk, traceSurf_object _ _ _ hk]
+  · rw [traceSurf_eq_zip _ _ _ hk, traceSurf_eq_zip _ _ _ hk]
+    have e : (rays.map mirX).map s.cs.localize = (rays.map s.cs.localize).map mirX := by
+      rw [List.map_map, List.map_map]
+      apply List.map_congr_left
+      intro r _
+      exact localize_mirX _ hx hry hrz r
+    rw [e, hg.1, List.zip_map_left, List.map_map, List.map_map]
+    apply List.map_congr_left
+    intro rt _
+    exact surfStep_mirX_sym s w hx hry hrz hg rt.1 rt.2
+
+/-- **mirror_trace, one surface, with the even asphere.**  Same statement as `traceSurf_mirX`, the
+geometry may also be an `EvenAsphere` (any coefficients, tolerance, iteration limit): its
+intersection is found by a Newton–Raphson loop whose stopping test looks at the whole batch — the
+mirrored batch takes the same number of sweeps. -/
+theorem traceSurf_mirX_asph (s : RSurf ℝ) (w : ℝ) (hx : s.cs.x = 0) (hry : s.cs.ry = 0) (hrz : s.cs.rz = 0)
+    (hg : s.geom = .plane ∨ (∃ R k, s.geom = .standard R k) ∨
+      ∃ R k tol mi c, s.geom = .evenAsphere R k tol mi c) (rays : List (Ray ℝ)) :
+    traceSurf s w (rays.map mirX) = (traceSurf s w rays).map mirX := by
+  apply traceSurf_mirX_sym s w hx hry hrz
+  rcases hg with h | ⟨R, k, h⟩ | ⟨R, k, tol, mi, c, h⟩ <;> rw [h]
+  · exact mirSym_plane
+  · exact mirSym_standard R k
+  · exact mirSym_evenAsphere R k tol mi c
+
+/-- **mirror_trace, whole lens, with even aspheres** -/
+theorem traceLens_mirX_asph (w : ℝ) (ss : List (RSurf ℝ))
+    (h : ∀ s ∈ ss, s.cs.x = 0 ∧ s.cs.ry = 0 ∧ s.cs.rz = 0 ∧
+      (s.geom = .plane ∨ (∃ R k, s.geom = .standard R k) ∨
+        ∃ R k tol mi c, s.geom = .evenAsphere R k tol mi c)) (rays : List (Ray ℝ)) :
+    traceLens w ss (rays.map mirX) = (traceLens w ss rays).map (List.map mirX) := by
+  apply traceLens_equivariant mirX w w ss ss
+  rw [List.forall₂_same]
+  intro s hs rays
+  obtain ⟨hx, hry, hrz, hg⟩ := h s hs
+  exact traceSurf_mirX_asph s w hx hry hrz hg rays
+
+noncomputable def exAsphere : RSurf ℝ :=
+  { kind := .standard, cs := ⟨0, -0.2, 1, -0.05, 0, 0⟩, geom := .evenAsphere 30 (-1) 1e-10 100 [1e-4, -2e-7],
+    n1 := 1, n2 := 1.5, k1 := 0, refl := false, aperture := some (8, 0), coating := none }
+
+example (w : ℝ) (rays : List (Ray ℝ)) :
+    traceLens w [exAsphere, exConic, exImage] (rays.map mirX) =
+      (traceLens w [exAsphere, exConic, exImage] rays).map (List.map mirX) := by
+  apply traceLens_mirX_asph
+  intro s hs
+  simp only [List.mem_cons, List.not_mem_nil, or_false] at hs
+  rcases hs with h | h | h <;> subst h
+  · exact ⟨rfl, rfl, rfl, Or.inr (Or.inr ⟨_, _, _, _, _, rfl⟩)⟩
+  · exact ⟨rfl, rfl, rfl, Or.inr (Or.inl ⟨_, _, rfl⟩)⟩
+  · exact ⟨rfl, rfl, rfl, Or.inl rfl⟩
+
+/-- non-vacuity of the "one root behind the ray" case: a concave sphere R = -50 at z = 5 -/
+noncomputable def exConcave : RSurf ℝ :=
+  { kind := .standard, cs := ⟨0, 0, 5, 0, 0, 0⟩, geom := .standard (-50) 0, n1 := 1, n2 := 1.5,
+    k1 := 0, refl := false, aperture := none, coating := none }
+
+theorem exGuardConcave : DummyGuard exDummy exConcave exRay := by
+  have hloc : exConcave.cs.localize exRay = ⟨1, 0, -5, 0, 0, 1, 1, 0⟩ := by
+    unfold Cs.localize exConcave exRay
+    simp only [truthy_zero, Bool.false_eq_true, if_false]
+    unfold Ray.translate
+    num_real
+    norm_num
+  have ht : dummyT exDummy exRay = 3 := by
+    unfold dummyT exDummy exRay
+    norm_num
+  refine ⟨?_, ?_, ?_⟩
+  · show (1:ℝ) ≠ 0
+    norm_num
+  · rw [ht]; norm_num
+  · rw [ht, hloc]
+    show RootsAhead _ _ _ _ _ 3
+    rw [conicABC_eq]
+    simp only
+    norm_num
+    unfold RootsAhead
+    right; right; left
+    have hs : Real.sqrt 9996 ≤ 100 := by
+      rw [Real.sqrt_le_iff]; norm_num
+    have hs1 : 96 ≤ Real.sqrt 9996 := by
+      apply Real.le_sqrt_of_sq_le; norm_num
+    refine ⟨by norm_num, ?_, ?_, ?_, ?_⟩
+    · norm_num; linarith
+    · norm_num; linarith
+    · norm_num
+      rw [abs_le]; constructor <;> linarith
+    · norm_num
+      rw [abs_le]; constructor <;> linarith
+
+/-! ### mirror in y (about the x–z plane): the same chain with the roles of x and y exchanged -/
+
+/-- mirror image of a ray in the plane y = 0 -/
+def mirY (r : Ray ℝ) : Ray ℝ := { r with y := -r.y, M := -r.M }
+/-- mirror image of a point in the plane y = 0 -/
+def mirPY (p : ℝ × ℝ × ℝ) : ℝ × ℝ × ℝ := (p.1, -p.2.1, p.2.2)
+
+theorem conicABC_mirY (R k : ℝ) (r : Ray ℝ) : conicABC R k (mirY r) = conicABC R k r := by
+  unfold conicABC mirY
+  num_real
+  simp only [Prod.mk.injEq]
+  refine ⟨by ring, by ring, by ring⟩
+
+theorem stdDistance_mirY (R k : ℝ) (r : Ray ℝ) : stdDistance R k (mirY r) = stdDistance R k r := by
+  unfold stdDistance
+  rw [conicABC_mirY]
+  rfl
+
+theorem planeDistance_mirY (r : Ray ℝ) : planeDistance (mirY r) = planeDistance r := rfl
+
+theorem propagate_mirY (r : Ray ℝ) (t k w : ℝ) : (mirY r).propagate t k w = mirY (r.propagate t k w) := by
+  unfold Ray.propagate mirY
+  num_real
+  simp only [Ray.mk.injEq, true_and, and_true]
+  ring
+
+theorem stdNormal_mirY (R k x y : ℝ) :
+    stdNormal R k x (-y) = ((stdNormal R k x y).1, -(stdNormal R k x y).2.1, (stdNormal R k x y).2.2) := by
+  unfold stdNormal conicSlope
+  num_real
+  have e : x * x + -y * -y = x * x + y * y := by ring
+  simp only [e, Prod.mk.injEq]
+  set den := R * Real.sqrt (1 - (1 + k) * (x * x + y * y) / (R * R))
+  have e2 : -y / den * (-y / den) = y / den * (y / den) := by ring
+  rw [e2]
+  refine ⟨rfl, by ring, rfl⟩
+
+theorem refract_mirY (r : Ray ℝ) (nx ny nz n1 n2 : ℝ) :
+    (mirY r).refract nx (-ny) nz n1 n2 = mirY (r.refract nx ny nz n1 n2) := by
+  unfold Ray.refract alignNormal mirY
+  num_real
+  have e : r.L * nx + -r.M * -ny + r.N * nz = r.L * nx + r.M * ny + r.N * nz := by ring
+  simp only [e, Ray.mk.injEq, true_and, and_true]
+  ring
+
+theorem reflect_mirY (r : Ray ℝ) (nx ny nz : ℝ) :
+    (mirY r).reflect nx (-ny) nz = mirY (r.reflect nx ny nz) := by
+  unfold Ray.reflect alignNormal mirY
+  num_real
+  have e : r.L * nx + -r.M * -ny + r.N * nz = r.L * nx + r.M * ny + r.N * nz := by ring
+  simp only [e, Ray.mk.injEq, true_and, and_true]
+  ring
+
+/-- `localize` commutes with the y-mirror when the frame has no y-decentre and no tilt about x, z
+(any tilt `ry` about the y-axis is allowed) -/
+theorem localize_mirY (c : Cs ℝ) (hy : c.y = 0) (hrx : c.rx = 0) (hrz : c.rz = 0) (r : Ray ℝ) :
+    c.localize (mirY r) = mirY (c.localize r) := by
+  unfold Cs.localize
+  rw [hy, hrx, hrz]
+  simp only [truthy_zero, Bool.false_eq_true, if_false]
+  cases truthy c.ry
+  · simp only [Bool.false_eq_true, if_false]
+    unfold Ray.translate mirY
+    num_real
+    simp only [Ray.mk.injEq, true_and, and_true]
+    ring
+  · simp only [if_true]
+    unfold Ray.translate Ray.rotateY mirY
+    num_real
+    simp only [Ray.mk.injEq, true_and, and_true]
+    ring
+
+theorem globalize_mirY (c : Cs ℝ) (hy : c.y = 0) (hrx : c.rx = 0) (hrz : c.rz = 0) (r : Ray ℝ) :
+    c.globalize (mirY r) = mirY (c.globalize r) := by
+  unfold Cs.globalize
+  rw [hy, hrx, hrz]
+  simp only [truthy_zero, Bool.false_eq_true, if_false]
+  cases truthy c.ry
+  · simp only [Bool.false_eq_true, if_false]
+    unfold Ray.translate mirY
+    num_real
+    simp only [Ray.mk.injEq, true_and, and_true]
+    ring
+  · simp only [if_true]
+    unfold Ray.translate Ray.rotateY mirY
+    num_real
+    simp only [Ray.mk.injEq, true_and, and_true]
+    ring
+
+theorem clip_mirY (ap : Option (ℝ × ℝ)) (r : Ray ℝ) : clip ap (mirY r) = mirY (clip ap r) := by
+  rcases ap with _ | ⟨rmax, rmin⟩
+  · rfl
+  · unfold clip
+    have e : (mirY r).x * (mirY r).x + (mirY r).y * (mirY r).y = r.x * r.x + r.y * r.y := by
+      unfold mirY; num_real; ring
+    simp only [e]
+    split_ifs <;> rfl
+
+theorem sphereGuess_mirY (R : ℝ) (r : Ray ℝ) : sphereGuess R (mirY r) = mirPY (sphereGuess R r) := by
+  simp only [sphereGuess, mirY, mirPY]
+  num_real
+  have e1 : -r.M * -r.M = r.M * r.M := by ring
+  have e2 : 2 * -r.M * -r.y = 2 * r.M * r.y := by ring
+  have e3 : -r.y * -r.y = r.y * r.y := by ring
+  simp only [e1, e2, e3, Prod.mk.injEq, and_true, true_and]
+  ring
+
+theorem nrStep_mirY (g : Geom ℝ) (hsag : ∀ x y, g.nrSag x (-y) = g.nrSag x y) (p : ℝ × ℝ × ℝ) (r : Ray ℝ) :
+    nrStep g (mirPY p) (mirY r) = (mirPY (nrStep g p r).1, (nrStep g p r).2) := by
+  simp only [nrStep, mirPY, mirY, hsag, Prod.mk.injEq, and_true, true_and]
+  ring
+
+theorem nrSweep_mirY (g : Geom ℝ) (hsag : ∀ x y, g.nrSag x (-y) = g.nrSag x y)
+    (rays : List (Ray ℝ)) (pts : List (ℝ × ℝ × ℝ)) :
+    nrSweep g (rays.map mirY) (pts.map mirPY) =
+      ((nrSweep g rays pts).1.map mirPY, (nrSweep g rays pts).2) := by
+  have hstep : (List.map (Prod.map mirPY mirY) (pts.zip rays)).map (fun pr => nrStep g pr.1 pr.2) =
+      ((pts.zip rays).map (fun pr => nrStep g pr.1 pr.2)).map (fun q => (mirPY q.1, q.2)) := by
+    rw [List.map_map, List.map_map]
+    apply List.map_congr_left
+    intro pr _
+    exact nrStep_mirY g hsag pr.1 pr.2
+  rw [nrSweep_eq, nrSweep_eq, List.zip_map, hstep]
+  simp only [List.map_map, Function.comp_def]
+
+theorem nrLoop_mirY (g : Geom ℝ) (hsag : ∀ x y, g.nrSag x (-y) = g.nrSag x y)
+    (rays : List (Ray ℝ)) (tol : ℝ) (n : ℕ) (pts : List (ℝ × ℝ × ℝ)) :
+    nrLoop g (rays.map mirY) tol n (pts.map mirPY) = (nrLoop g rays tol n pts).map mirPY := by
+  induction n generalizing pts with
+  | zero => rfl
+  | succ n ih =>
+    simp only [nrLoop, nrSweep_mirY g hsag]
+    split_ifs
+    · rfl
+    · exact ih _
+
+theorem nrDistance_mirY (g : Geom ℝ) (hsag : ∀ x y, g.nrSag x (-y) = g.nrSag x y)
+    (R tol : ℝ) (mi : ℕ) (rays : List (Ray ℝ)) :
+    nrDistance g R tol mi (rays.map mirY) = nrDistance g R tol mi rays := by
+  simp only [nrDistance]
+  have e : (rays.map mirY).map (sphereGuess R) = (rays.map (sphereGuess R)).map mirPY := by
+    rw [List.map_map, List.map_map]
+    apply List.map_congr_left
+    intro r _
+    exact sphereGuess_mirY R r
+  rw [e, nrLoop_mirY g hsag, List.zip_map, List.map_map]
+  apply List.map_congr_left
+  intro pr _
+  simp only [Function.comp, Prod.map, mirPY, mirY]
+  num_real
+  congr 1
+  ring
+
+theorem conicSag_mirY (R k x y : ℝ) : conicSag R k x (-y) = conicSag R k x y := by
+  unfold conicSag
+  num_real
+  simp only [neg_mul_neg]
+
+theorem asphSag_mirY (R k : ℝ) (c : List ℝ) (x y : ℝ) : asphSag R k c x (-y) = asphSag R k c x y := by
+  unfold asphSag
+  rw [conicSag_mirY]
+  num_real
+  simp only [neg_mul_neg]
+
+theorem conicSlope_mirY (R k x y : ℝ) :
+    conicSlope R k x (-y) = ((conicSlope R k x y).1, -(conicSlope R k x y).2) := by
+  unfold conicSlope
+  num_real
+  simp only [neg_mul_neg, Prod.mk.injEq, true_and]
+  ring
+
+theorem nrNormalize_neg2 (a b : ℝ) :
+    nrNormalize a (-b) = ((nrNormalize a b).1, -(nrNormalize a b).2.1, (nrNormalize a b).2.2) := by
+  unfold nrNormalize
+  num_real
+  simp only [neg_mul_neg, Prod.mk.injEq, and_true, true_and]
+  ring
+
+theorem asphFold_mirY (x y r2 : ℝ) (l : List (ℝ × ℕ)) (a b : ℝ) :
+    l.foldl (fun (d : ℝ × ℝ) (ci : ℝ × ℕ) =>
+      (d.1 + 2 * (Num.ofNat (ci.2 + 1) : ℝ) * x * ci.1 * ipow r2 ci.2,
+       d.2 + 2 * (Num.ofNat (ci.2 + 1) : ℝ) * (-y) * ci.1 * ipow r2 ci.2)) (a, -b) =
+    ((l.foldl (fun (d : ℝ × ℝ) (ci : ℝ × ℕ) =>
+      (d.1 + 2 * (Num.ofNat (ci.2 + 1) : ℝ) * x * ci.1 * ipow r2 ci.2,
+       d.2 + 2 * (Num.ofNat (ci.2 + 1) : ℝ) * y * ci.1 * ipow r2 ci.2)) (a, b)).1,
+     -(l.foldl (fun (d : ℝ × ℝ) (ci : ℝ × ℕ) =>
+      (d.1 + 2 * (Num.ofNat (ci.2 + 1) : ℝ) * x * ci.1 * ipow r2 ci.2,
+       d.2 + 2 * (Num.ofNat (ci.2 + 1) : ℝ) * y * ci.1 * ipow r2 ci.2)) (a, b)).2) := by
+  induction l generalizing a b with
+  | nil => rfl
+  | cons ci l ih =>
+    simp only [List.foldl_cons]
+    have e : -b + 2 * (Num.ofNat (ci.2 + 1) : ℝ) * (-y) * ci.1 * ipow r2 ci.2 =
+        -(b + 2 * (Num.ofNat (ci.2 + 1) : ℝ) * y * ci.1 * ipow r2 ci.2) := by ring
+    rw [e, ih]
+
+theorem asphNormal_mirY (R k : ℝ) (c : List ℝ) (x y : ℝ) :
+    asphNormal R k c x (-y) =
+      ((asphNormal R k c x y).1, -(asphNormal R k c x y).2.1, (asphNormal R k c x y).2.2) := by
+  unfold asphNormal
+  rw [conicSlope_mirY]
+  have e' : (-y * -y : ℝ) = y * y := by ring
+  num_real
+  simp only [e']
+  have h := asphFold_mirY x y (x * x + y * y) c.zipIdx (conicSlope R k x y).1 (conicSlope R k x y).2
+  rw [h, nrNormalize_neg2]
+
+/-- what `traceSurf` needs from a geometry to be mirror symmetric in y -/
+def MirSymGeomY (g : Geom ℝ) : Prop :=
+  (∀ rays : List (Ray ℝ), g.distance (rays.map mirY) = g.distance rays) ∧
+  (∀ (r : Ray ℝ) (nx ny nz : ℝ), g.normal r = (nx, ny, nz) → g.normal (mirY r) = (nx, -ny, nz))
+
+theorem mirSymY_plane : MirSymGeomY (.plane : Geom ℝ) := by
+  refine ⟨fun rays => ?_, fun r nx ny nz h => ?_⟩
+  · simp only [Geom.distance, List.map_map]
+    rfl
+  · simp only [Geom.normal, Prod.mk.injEq] at h ⊢
+    num_real
+    obtain ⟨h1, h2, h3⟩ := h
+    exact ⟨h1, by rw [← h2, neg_zero], h3⟩
+
+theorem mirSymY_standard (R k : ℝ) : MirSymGeomY (.standard R k : Geom ℝ) := by
+  refine ⟨fun rays => ?_, fun r nx ny nz h => ?_⟩
+  · simp only [Geom.distance, List.map_map]
+    apply List.map_congr_left
+    intro r _
+    exact stdDistance_mirY R k r
+  · simp only [Geom.normal] at h ⊢
+    rw [show (mirY r).x = r.x from rfl, show (mirY r).y = -r.y from rfl, stdNormal_mirY, h]
+
+theorem mirSymY_evenAsphere (R k tol : ℝ) (mi : ℕ) (c : List ℝ) :
+    MirSymGeomY (.evenAsphere R k tol mi c : Geom ℝ) := by
+  refine ⟨fun rays => ?_, fun r nx ny nz h => ?_⟩
+  · simp only [Geom.distance]
+    exact nrDistance_mirY (.evenAsphere R k tol mi c) (fun x y => asphSag_mirY R k c x y) R tol mi rays
+  · simp only [Geom.normal] at h ⊢
+    rw [show (mirY r).x = r.x from rfl, show (mirY r).y = -r.y from rfl, asphNormal_mirY, h]
+
+theorem interact_mirY_sym (s : RSurf ℝ) (hg : MirSymGeomY s.geom) (r : Ray ℝ) :
+    interact s (mirY r) = mirY (interact s r) := by
+  obtain ⟨kind, cs, geom, n1, n2, k1, refl, ap, coat⟩ := s
+  simp only at hg
+  rcases hn : geom.normal r with ⟨nx, ny, nz⟩
+  have hm := hg.2 r nx ny nz hn
+  cases kind <;> cases refl <;> rcases coat with _ | ⟨T, Rc⟩ <;>
+    simp only [interact, hn, hm, refract_mirY, reflect_mirY, Bool.false_eq_true, if_false, if_true] <;> rfl
+
+theorem surfStep_mirY_sym (s : RSurf ℝ) (w : ℝ) (hy : s.cs.y = 0) (hrx : s.cs.rx = 0) (hrz : s.cs.rz = 0)
+    (hg : MirSymGeomY s.geom) (r : Ray ℝ) (t : ℝ) :
+    surfStep s w (mirY r) t = mirY (surfStep s w r t) := by
+  unfold surfStep
+  rw [propagate_mirY]
+  have e : ∀ q : Ray ℝ, ({ (mirY q) with opd := (mirY q).opd + Num.abs (t * s.n1) } : Ray ℝ) =
+      mirY { q with opd := q.opd + Num.abs (t * s.n1) } := fun _ => rfl
+  rw [e, clip_mirY, interact_mirY_sym s hg, globalize_mirY _ hy hrx hrz]
+
+theorem traceSurf_mirY_sym (s : RSurf ℝ) (w : ℝ) (hy : s.cs.y = 0) (hrx : s.cs.rx = 0) (hrz : s.cs.rz = 0)
+    (hg : MirSymGeomY s.geom) (rays : List (Ray ℝ)) :
+    traceSurf s w (rays.map mirY) = (traceSurf s w rays).map mirY := by
+  by_cases hk : s.kind = .object
+  · rw [traceSurf_object _ _ _ hk, traceSurf_object _ _ _ hk]
+  · rw [traceSurf_eq_zip _ _ _ hk, traceSurf_eq_zip _ _ _ hk]
+    have e : (rays.map mirY).map s.cs.localize = (rays.map s.cs.localize).map mirY := by
+      rw [List.map_map, List.map_map]
+      apply List.map_congr_left
+      intro r _
+      exact localize_mirY _ hy hrx hrz r
+    rw [e, hg.1, List.zip_map_left, List.map_map, List.map_map]
+    apply List.map_congr_left
+    intro rt _
+    exact surfStep_mirY_sym s w hy hrx hrz hg rt.1 rt.2
+
+/-- **mirror_trace in y, one surface**: no decentre in y, no tilt about x and z (`ry` arbitrary);
+plane, standard conic or even asphere; any radial aperture, coating, kind. -/
+theorem traceSurf_mirY (s : RSurf ℝ) (w : ℝ) (hy : s.cs.y = 0) (hrx : s.cs.rx = 0) (hrz : s.cs.rz = 0)
+    (hg : s.geom = .plane ∨ (∃ R k, s.geom = .standard R k) ∨
+      ∃ R k tol mi c, s.geom = .evenAsphere R k tol mi c) (rays : List (Ray ℝ)) :
+    traceSurf s w (rays.map mirY) = (traceSurf s w rays).map mirY := by
+  apply traceSurf_mirY_sym s w hy hrx hrz
+  rcases hg with h | ⟨R, k, h⟩ | ⟨R, k, tol, mi, c, h⟩ <;> rw [h]
+  · exact mirSymY_plane
+  · exact mirSymY_standard R k
+  · exact mirSymY_evenAsphere R k tol mi c
+
+/-- **mirror_trace in y, whole lens** -/
+theorem traceLens_mirY (w : ℝ) (ss : List (RSurf ℝ))
+    (h : ∀ s ∈ ss, s.cs.y = 0 ∧ s.cs.rx = 0 ∧ s.cs.rz = 0 ∧
+      (s.geom = .plane ∨ (∃ R k, s.geom = .standard R k) ∨
+        ∃ R k tol mi c, s.geom = .evenAsphere R k tol mi c)) (rays : List (Ray ℝ)) :
+    traceLens w ss (rays.map mirY) = (traceLens w ss rays).map (List.map mirY) := by
+  apply traceLens_equivariant mirY w w ss ss
+  rw [List.forall₂_same]
+  intro s hs rays
+  obtain ⟨hy, hrx, hrz, hg⟩ := h s hs
+  exact traceSurf_mirY s w hy hrx hrz hg rays
+
+noncomputable def exAsphereY : RSurf ℝ :=
+  { kind := .standard, cs := ⟨0.4, 0, 1, 0, 0.07, 0⟩, geom := .evenAsphere 30 (-1) 1e-10 100 [1e-4, -2e-7],
+    n1 := 1, n2 := 1.5, k1 := 0, refl := false, aperture := some (8, 0), coating := none }
+
+example (w : ℝ) (rays : List (Ray ℝ)) :
+    traceLens w [exAsphereY, exSphere, exImage] (rays.map mirY) =
+      (traceLens w [exAsphereY, exSphere, exImage] rays).map (List.map mirY) := by
+  apply traceLens_mirY
+  intro s hs
+  simp only [List.mem_cons, List.not_mem_nil, or_false] at hs
+  rcases hs with h | h | h <;> subst h
+  · exact ⟨rfl, rfl, rfl, Or.inr (Or.inr ⟨_, _, _, _, _, rfl⟩)⟩
+  · exact ⟨rfl, rfl, rfl, Or.inr (Or.inl ⟨_, _, rfl⟩)⟩
+  · exact ⟨rfl, rfl, rfl, Or.inl rfl⟩
